@@ -4,6 +4,7 @@ CONSTANTS Normal = {"n1", "n2"}
           Long = {"nL"}
           Empty = {"nE"}
           Keys = {1, 2}
+          BadKeys = {7}
           EncodeOn = TRUE
-INVARIANTS TypeOK ResultsAgree Refines MemAgrees Confined InvalidNeverStored
-PROPERTIES NoOverwrite
+INVARIANTS TypeOK ResultsAgree Refines MemAgrees Confined InvalidNeverStored BadNeverStored
+PROPERTIES NoOverwrite FailedCallChangesNothing
